@@ -77,7 +77,7 @@ EXPORT bool _strislowercase_s_chk(const char *dest, rsize_t dmax,
         return (false);
     }
 
-    while (*dest && dmax) {
+    while (dmax && *dest) {
 
         if ((*dest < 'a') || (*dest > 'z')) {
             return (false);
